@@ -43,8 +43,20 @@ def selection_exprs(paths, tier):
     for a, b in itertools.combinations(atoms, 2):
         exprs.append(("or", a, b))
         exprs.append(("and", ("not", a), b))
+        exprs.append(("or", a, ("not", b)))
+        exprs.append(("or", ("not", a), b))
+        exprs.append(("and", a, ("not", b)))
+    exprs += [("not", ("not", a)) for a in atoms]
     allp = list(paths)
-    reps = S.dedupe(exprs, allp, per_ctor=True)
+    # one representative per (denotation, constructor skeleton): the same set of addresses
+    # written in every syntactic shape (the remainder threading differs per shape)
+    from checks.c16 import _shape_sig
+
+    seen = {}
+    for x in exprs:
+        k = (tuple(S.den(x, p) for p in allp), _shape_sig(x))
+        seen.setdefault(k, x)
+    reps = list(seen.values())
     if tier == "quick":
         # one per denotation class, rotating through constructor kinds for syntactic variety
         byden = {}
@@ -53,8 +65,14 @@ def selection_exprs(paths, tier):
             byden.setdefault(k, []).append(e)
         out = []
         for i, (k, es) in enumerate(sorted(byden.items())):
-            out.append(es[i % len(es)])
-        return out
+            # quick: per denotation class, up to 3 syntactic shapes, preferring compound ones
+            es = sorted(es, key=lambda x: -len(_shape_sig(x)))
+            out += [es[(i + j) % len(es)] for j in range(min(3, len(es)))]
+        uniq = []
+        for x in out:
+            if x not in uniq:
+                uniq.append(x)
+        return uniq
     return reps
 
 
